@@ -303,8 +303,59 @@ func c13Items() []c13Item {
 	for _, t := range []string{"10", "10:30", "10:30:15", "10:30:15.250", "00:00:00", "23:59:59.999", "24:00", "24:00:00", "10:60", "10:30:60", "1:30", "T10:30", "@T10:30", "10:30:15.25", "10:30:15Z", "10:30 "} {
 		add("time", t)
 	}
+	// fractions finer than the millisecond a value keeps, at the last instant of a second, a minute, a day, a year:
+	// whatever is kept has to print as itself (a rounding that carries into the next unit does not)
+	for _, t := range []string{"23:59:59.9996", "23:59:59.99999", "10:15:59.9995", "10:59:59.9999", "00:00:00.0004", "23:59:59.9994"} {
+		add("time.carry", t)
+	}
+	for _, d := range []string{"2020-12-31T23:59:59.9996", "2020-12-31T23:59:59.9996Z", "2020-02-29T23:59:59.99999+05:30", "2020-01-15T10:59:59.9995", "9999-12-31T23:59:59.9999Z"} {
+		add("datetime.carry", d)
+	}
 	for _, q := range []string{"5", "5 'mg'", "5 mg", "5 days", "5days", "5 day", "'mg'", "+5.0 'kg'", "-5.5 'mg'", "5 'mg' ", "5  'mg'", "5 ''", "5 weeks", "5 wk", "5 'wk'", "1.5 hours", "5 Days", ".5 'mg'", "5. 'mg'", "5 'mg' x"} {
 		add("quantity", q)
+	}
+	return out
+}
+
+// calls of the conversion histories, the argument-less ones first
+var c13HistCalls = func() []string {
+	var out []string
+	for _, T := range c13Targets {
+		out = append(out, "to"+T+"()")
+	}
+	for _, T := range c13Targets {
+		out = append(out, "convertsTo"+T+"()")
+	}
+	for _, u := range []string{"'mg'", "'days'", "'hours'", "'years'", "'1'", "'wk'"} {
+		out = append(out, "toQuantity("+u+")", "convertsToQuantity("+u+")")
+	}
+	return out
+}()
+
+func c13CallName(c string) string {
+	if i := strings.Index(c, "("); i >= 0 && !strings.HasSuffix(c, "()") {
+		return c[:i] + "(unit)"
+	}
+	return c
+}
+
+// receivers of the conversion histories: one item per (kind, class) of the item list plus quantity and calendar texts
+func c13HistReceivers(items []c13Item) []c13Item {
+	var out []c13Item
+	seen := map[string]bool{}
+	for _, it := range items {
+		k := it.kind + "|" + it.class
+		if seen[k] {
+			continue
+		}
+		seen[k] = true
+		out = append(out, it)
+	}
+	for _, s := range []string{"3 days", "48 hours", "1 week", "2 'wk'", "5 'mg'", "1 year", "36 months", "90 minutes", "1.5 hours", "7", "7.0", "true", "2020-01-15", "10:30"} {
+		out = append(out, c13Item{id: fmt.Sprintf("h%q", s), v: system.String(s), kind: "String", class: "str.hist." + c13StrClass(s), str: s})
+	}
+	for _, q := range [][2]string{{"3", "days"}, {"48", "hours"}, {"1", "week"}, {"2", "wk"}, {"5", "mg"}} {
+		out = append(out, c13Item{id: "hq" + q[0] + q[1], v: system.MustParseQuantity(q[0], q[1]), kind: "Quantity", class: "qty.hist"})
 	}
 	return out
 }
@@ -323,12 +374,36 @@ func c13StrClass(s string) string {
 
 func init() {
 	core.Register(&core.Check{
-		ID:   "C13",
-		Rule: "every item of the value pool V u E, 15 elements without a usable value (Quantity without value / unit, primitives holding only an id or an extension, unparsable decimal text, unset enum code; relations only, no table) plus a finite string grammar (signed/unsigned numbers x fraction x exponent x whitespace; Boolean spellings; date/time texts incl. calendar-invalid ones; quantity texts) x 8 target types: convertsToT = toT().exists(), unconvertible -> empty, result type, idempotence, toString round trip (for x of type T and for every conversion result), and agreement with the FHIRPath conversion table; non-trivial = distinct (item, target, outcome)",
+		ID:          "C13",
+		Rule:        "every item of the value pool V u E, 15 elements without a usable value (Quantity without value / unit, primitives holding only an id or an extension, unparsable decimal text, unset enum code; relations only, no table) plus a finite string grammar (signed/unsigned numbers x fraction x exponent x whitespace; Boolean spellings; date/time texts incl. calendar-invalid ones; quantity texts) x 8 target types: convertsToT = toT().exists(), unconvertible -> empty, result type, idempotence, toString round trip (for x of type T and for every conversion result), and agreement with the FHIRPath conversion table; non-trivial = distinct (item, target, outcome)",
 		Assumptions: []string{"conversion table and string formats transcribed from FHIRPath N1 section 5.5", "date/time strings with the literal-only trailing 'T' / leading 'T' are left undefined (totality only); a leading '@' is not part of the string format"},
 		Subs: func(tier string) []core.Sub {
 			items := c13Items()
+			hist := c13HistReceivers(items)
 			return []core.Sub{
+				// runs first: a conversion memo that lives in the process must be empty when the reference pass starts
+				{Name: "conversion-histories", N: len(hist), Note: fmt.Sprintf("%d receivers x (%d calls once, then every call after every other call): each call's result is a function of the receiver and the call alone", len(hist), len(c13HistCalls)), Run: func(i int, r *core.Rec) {
+					it := hist[i]
+					run := func(c string) string {
+						r.Eval()
+						return lib.Run("%x."+c, nil, map[string]any{"x": it.v}).String()
+					}
+					ref := map[string]string{}
+					for _, c := range c13HistCalls { // simplest first: the argument-less conversions are recorded before any call with an argument ran
+						ref[c] = run(c)
+					}
+					r.State("hist|" + it.kind + "|" + it.class)
+					for _, before := range c13HistCalls {
+						run(before)
+						for _, c := range c13HistCalls {
+							got := run(c)
+							r.Nontrivial(it.id, before, c, got)
+							if got != ref[c] {
+								r.Fail(fmt.Sprintf("conversion-history|%s|%s|after=%s", c13CallName(c), it.class, c13CallName(before)), core.W{"item": it.id, "call": c, "after": before, "first_result": core.Short(ref[c], 160), "result_now": core.Short(got, 160)})
+							}
+						}
+					}
+				}},
 				{Name: "items", N: len(items), Note: fmt.Sprintf("%d items x 8 targets", len(items)), Run: func(i int, r *core.Rec) {
 					it := items[i]
 					env := func() map[string]any { return map[string]any{"x": it.v} }
